@@ -60,6 +60,56 @@ def width(toks):
     return total
 
 
+def prealloc_cap_rule(ctx, crates, pid, floor):
+    """`Vec::with_capacity(count.min(K))` bounds only the *pre-allocation* for a count taken from the file; the number of elements
+    read stays `count`.  A local holding the capped value that is also used as a loop bound / comparison / length truncates every
+    list longer than K on parse — silently.  Instances: every `.min(<constant>)` that reaches a capacity argument."""
+    R = ctx.rule("%s.prealloc-cap-bounds-only-the-allocation" % pid, "a value `x.min(K)` that sizes a with_capacity / reserve is used for nothing else (in particular not as a loop bound)", floor=floor)
+    for c in crates:
+        for f in c.fn_list:
+            if not f.hir or f.kind == "Closure" or "::tests::" in f.path or "::test" in f.path:
+                continue
+            body = f.hir["body"]
+            # inline form: the capped value exists only inside the capacity argument
+            for x in hirq.walk(body):
+                if x.get("k") in ("call", "mcall") and re.search(r"with_capacity|reserve", (x.get("fn") or "") + "::" + (x.get("m") or "")):
+                    for a in x.get("args") or []:
+                        a2 = hirq.strip(a)
+                        if a2.get("k") == "mcall" and a2["m"] == "min":
+                            ctx.ok(R, {"fn": f.path.split("::")[-1], "line": x.get("ln"), "cap": hirq.render(a2)[:50], "form": "inline"}) if len(ctx.samples) < 250 else (ctx.rules[R].__setitem__("obligations", ctx.rules[R]["obligations"] + 1), ctx.rules[R].__setitem__("discharged", ctx.rules[R]["discharged"] + 1))
+            caps = {}
+            for l in hirq.find(body, "let"):
+                if l["pat"].get("k") == "bind" and l.get("init") is not None:
+                    i = hirq.strip(l["init"])
+                    if i.get("k") == "mcall" and i["m"] == "min" and i.get("args"):
+                        k_ = hirq.strip(i["args"][0])
+                        if k_.get("k") == "lit" or (k_.get("k") == "path" and "def" in k_["res"]):
+                            caps[l["pat"]["name"]] = l
+            for nm, l in caps.items():
+                cap_use, other = [], []
+                for x in hirq.walk(body):
+                    if x is l or x.get("k") == "let" and x is l:
+                        continue
+                    if x.get("k") in ("call", "mcall") and re.search(r"with_capacity|reserve", (x.get("fn") or "") + "::" + (x.get("m") or "")):
+                        if any(hirq.strip(a).get("k") == "path" and hirq.strip(a)["res"].get("local") == nm for a in x.get("args") or []):
+                            cap_use.append(x)
+                            continue
+                    if x.get("k") in ("range", "for", "bin", "index") or (x.get("k") in ("call", "mcall") and not re.search(r"with_capacity|reserve|fmt|log", (x.get("fn") or "") + "::" + (x.get("m") or ""))):
+                        direct = [y for key in ("l", "r", "lo", "hi", "iter", "i", "idx") for y in [x.get(key)] if isinstance(y, dict) and hirq.strip(y).get("k") == "path" and hirq.strip(y)["res"].get("local") == nm]
+                        direct += [a for a in (x.get("args") or []) if hirq.strip(a).get("k") == "path" and hirq.strip(a)["res"].get("local") == nm]
+                        if x.get("k") == "for":
+                            direct += [y for y in hirq.walk(x["iter"]) if y.get("k") == "path" and y["res"].get("local") == nm]
+                        if direct:
+                            other.append(x)
+                if not cap_use:
+                    continue
+                if other:
+                    ctx.bad(R, "%s|%s" % (f.path.split("::")[-1], nm), "%s:%d" % (f.file, other[0].get("ln") or l.get("ln") or 0), "`%s = %s` sizes an allocation and is also used in `%s`" % (nm, hirq.render(l["init"])[:50], hirq.render(other[0])[:60]),
+                            "lists longer than the cap are cut off at the cap when parsed: the elements beyond it are silently lost and the header count no longer matches the list")
+                else:
+                    ctx.ok(R, {"fn": f.path.split("::")[-1], "cap_local": nm, "form": "local used only as capacity"})
+
+
 def run(ctx):
     prog = ctx.prog
     wmo = prog.crate("wow_wmo")
@@ -67,6 +117,8 @@ def run(ctx):
     R_size = ctx.rule("C15.declared-size-equals-written", "every ChunkHeader{size: n*K} in the writer declares exactly the bytes written per element", floor=5)
     R_place = ctx.rule("C15.no-placeholder-for-parsed-field", "a field the parser reads into the model (offsets, ids) is never written as a literal constant", floor=6)
     R_cnt = ctx.rule("C15.header-counts-are-lengths", "every count in MOHD is the len() of a list", floor=5)
+
+    prealloc_cap_rule(ctx, [wmo], "C15", floor=5)
 
     W = {norm(f.path).split("::")[-1]: f for f in wmo.fn_list if "writer::WmoWriter::write_" in f.path and f.kind != "Closure" and f.hir}
 
@@ -343,5 +395,8 @@ def run(ctx):
                 a = hirq.render(c["args"][0])
                 if ".len()" in a:
                     ctx.ok(R_cnt, {"count": a[:60]})
+                elif re.search(r"\bn_[a-z_]+\b", a):
+                    ctx.bad(R_cnt, "write_header|cached-count|%s" % re.search(r"\bn_[a-z_]+\b", a).group(0), "%s:%d" % (wh.file, c["ln"]), "count written from the cached header field `%s` instead of the list's length" % a[:50],
+                            "after an in-memory edit (a portal / light / group added or removed) the written count no longer matches the list that is written next to it: the parser reads too few or too many elements")
                 elif re.search(r"^\(?\d+", a) and "n_" in a:
                     ctx.bad(R_cnt, "write_header|literal-count", "%s:%d" % (wh.file, c["ln"]), "count written as `%s`" % a, "header count does not equal the list length")
